@@ -81,6 +81,10 @@ pub enum Case {
         fault: Option<(u8, bool, u8)>,
         #[serde(default)]
         skew: Option<(bool, u8)>,
+        /// a crowd of authors: one side (A if the flag is set) additionally holds `CROWD_AUTHORS[class]` entries, each by an
+        /// author of its own (more distinct keys than any per-store key cache is likely to hold)
+        #[serde(default)]
+        crowd: Option<(u8, bool)>,
     },
     /// two real live actors (the C11 interpreter, lifecycle mode: the documents exist in both stores): requests are
     /// declined (document held but not synced, already syncing), lost, or their sessions fail; judged here only for
@@ -188,16 +192,16 @@ impl Prop for C10 {
         }
         // fault enumeration for two fixed pairs of stores: every frame index x side x kind
         for (a, b) in [(local.clone(), peer.clone()), (peer.clone(), vec![])] {
-            out.push(Case::Faulty { a: a.clone(), b: b.clone(), fault: None, skew: None });
+            out.push(Case::Faulty { a: a.clone(), b: b.clone(), fault: None, skew: None, crowd: None });
             for behind_a in [true, false] {
                 for d in 0..4u8 {
-                    out.push(Case::Faulty { a: a.clone(), b: b.clone(), fault: None, skew: Some((behind_a, d)) });
+                    out.push(Case::Faulty { a: a.clone(), b: b.clone(), fault: None, skew: Some((behind_a, d)), crowd: None });
                 }
             }
             for m in 1..=8u8 {
                 for side in [true, false] {
                     for kind in 0..FAULT_KINDS {
-                        out.push(Case::Faulty { a: a.clone(), b: b.clone(), fault: Some((m, side, kind)), skew: None });
+                        out.push(Case::Faulty { a: a.clone(), b: b.clone(), fault: Some((m, side, kind)), skew: None, crowd: None });
                     }
                 }
             }
@@ -215,13 +219,14 @@ impl Prop for C10 {
             prop::option::weighted(0.8, (1u8..=10, any::<bool>(), 0u8..FAULT_KINDS)),
             prop::option::weighted(0.3, (any::<bool>(), 0u8..8)),
         )
-            .prop_map(|(a, b, fault, skew)| Case::Faulty { a, b, fault, skew });
+            .prop_map(|(a, b, fault, skew)| Case::Faulty { a, b, fault, skew, crowd: None });
+        let crowd = (vec(small(), 0..=4), vec(small(), 0..=4), 0u8..6, any::<bool>()).prop_map(|(a, b, class, on_a)| Case::Faulty { a, b, fault: None, skew: None, crowd: Some((class, on_a)) });
         let live = {
             use crate::props::c11::{Case as L, Pick};
             (any::<bool>(), vec((any::<u16>(), any::<u8>()).prop_map(|(which, flavour)| Pick { which, flavour }), 1..=24), 2u8..=4, vec(any::<u16>(), 0..8))
                 .prop_map(|(swap, picks, max_dials, drain)| Case::Live(L::Random { swap, picks, max_dials, drain, lifecycle: true }))
         };
-        prop_oneof![20 => vs_bob, 10 => vs_alice, 20 => faulty, 3 => live].boxed()
+        prop_oneof![200 => vs_bob, 100 => vs_alice, 200 => faulty, 30 => live, 1 => crowd].boxed()
     }
 
     fn check(ctx: &mut Ctx, case: &Case) -> Outcome {
@@ -234,7 +239,7 @@ impl Prop for C10 {
             let r = match case {
                 Case::VsBob { local, peer, accept, script } => vs_bob(ctx, local, peer, *accept, script, &mut trial),
                 Case::VsAlice { local, peer, script } => vs_alice(ctx, local, peer, script, &mut trial),
-                Case::Faulty { a, b, fault, skew } => faulty(ctx, a, b, *fault, *skew, &mut trial),
+                Case::Faulty { a, b, fault, skew, crowd } => faulty(ctx, a, b, *fault, *skew, *crowd, &mut trial),
                 Case::Live(c) => live(ctx, c, &mut trial),
             };
             verif::set_actor_exit_pause_ms(0);
@@ -843,8 +848,36 @@ async fn read_raw<RD: AsyncRead + Unpin>(r: &mut RD) -> Option<Vec<u8>> {
     Some(v)
 }
 
-fn faulty(ctx: &mut Ctx, a: &[Small], b: &[Small], fault: Option<(u8, bool, u8)>, skew: Option<(bool, u8)>, o: &mut Outcome) -> R<()> {
+/// sizes of the crowd of authors (around 256 and 1024, and beyond)
+const CROWD_AUTHORS: [usize; 6] = [255, 257, 1023, 1024, 1025, 1100];
+
+/// One entry per author for 1100 authors (signed once per worker).
+fn crowd_author_entries() -> &'static Vec<SignedEntry> {
+    static B: std::sync::OnceLock<Vec<SignedEntry>> = std::sync::OnceLock::new();
+    B.get_or_init(|| {
+        (0..1100usize)
+            .map(|j| {
+                let au = iroh_docs::Author::from_bytes(blake3::hash(format!("c10-crowd-author-{j}").as_bytes()).as_bytes());
+                let (hash, len) = content(1);
+                SignedEntry::from_parts(namespace(0), &au, [b'q', (j % 7) as u8], iroh_docs::Record::new(hash, len, T0 + 1))
+            })
+            .collect()
+    })
+}
+
+fn faulty(ctx: &mut Ctx, a: &[Small], b: &[Small], fault: Option<(u8, bool, u8)>, skew: Option<(bool, u8)>, crowd: Option<(u8, bool)>, o: &mut Outcome) -> R<()> {
     o.class("real-vs-real");
+    let crowd_entries: &[SignedEntry] = match crowd {
+        Some((class, _)) => {
+            o.class("crowd-of-authors(255..1100-distinct-authors-on-one-side)");
+            o.nontrivial = true;
+            &crowd_author_entries()[..CROWD_AUTHORS[class as usize % CROWD_AUTHORS.len()]]
+        }
+        None => &[],
+    };
+    let crowd_on_a = crowd.map(|c| c.1).unwrap_or(false);
+    // a crowd takes longer (thousands of signature checks), and a store that stops answering while it is filled is a hang too
+    let watchdog = if crowd.is_some() { WATCHDOG * 4 } else { WATCHDOG };
     // per-side clocks (initiator, acceptor): the proxy switches the hooked clock to the receiving side's value before
     // every frame it forwards (lock-step protocol: exactly one side is processing at any time)
     const TEN_MIN: u64 = 600_000_000;
@@ -856,8 +889,19 @@ fn faulty(ctx: &mut Ctx, a: &[Small], b: &[Small], fault: Option<(u8, bool, u8)>
     let pk_a = iroh::SecretKey::from_bytes(&[0xA1u8; 32]).public();
     let pk_b = iroh::SecretKey::from_bytes(&[0xB2u8; 32]).public();
     ctx.rt.block_on(async {
-        let ha = make_handle(a).await?;
-        let hb = make_handle(b).await?;
+        let fill_both = async {
+            let ha = make_handle(a).await?;
+            let hb = make_handle(b).await?;
+            for e in crowd_entries {
+                let h = if crowd_on_a { &ha } else { &hb };
+                es(h.insert_remote(ns, e.clone(), [9u8; 32], ContentStatus::Missing).await)?;
+            }
+            Ok::<_, String>((ha, hb))
+        };
+        let (ha, hb) = match tokio::time::timeout(watchdog, fill_both).await {
+            Err(_) => return Err("WATCHDOG".to_string()),
+            Ok(x) => x?,
+        };
         let start_a = act::dump(&ha, ns).await?;
         let start_b = act::dump(&hb, ns).await?;
         let (a_io, pa_io) = tokio::io::duplex(1 << 20);
@@ -967,7 +1011,7 @@ fn faulty(ctx: &mut Ctx, a: &[Small], b: &[Small], fault: Option<(u8, bool, u8)>
             }
             count
         };
-        let joined = tokio::time::timeout(WATCHDOG, async { tokio::join!(alice, bob, proxy) }).await;
+        let joined = tokio::time::timeout(watchdog, async { tokio::join!(alice, bob, proxy) }).await;
         verif::set_clock(Some(T0 + 3));
         let (ra, (rb, _bob_out_always_available, contract), frames) = match joined {
             Err(_) => return Err("WATCHDOG".to_string()),
